@@ -28,6 +28,8 @@ def main():
         patch = os.path.join(root, d, "patch.diff")
         if not os.path.exists(patch):
             continue
+        if json.load(open(os.path.join(root, d, "meta.json"))).get("superseded_by"):
+            continue  # applies to an earlier /repo only (see its meta.json)
         tmp = tempfile.mkdtemp(prefix="verif_matrix_")
         try:
             shutil.copytree("/repo/src", os.path.join(tmp, "src"), ignore=shutil.ignore_patterns("__pycache__", "*.egg-info"))
